@@ -10,6 +10,7 @@ import (
 	"fmt"
 	"io"
 	"net"
+	"net/netip"
 	"os"
 	"path/filepath"
 	"runtime"
@@ -18,6 +19,7 @@ import (
 	"time"
 
 	"github.com/talostrading/sonic"
+	"github.com/talostrading/sonic/multicast"
 	"github.com/talostrading/sonic/sonicerrors"
 	"github.com/talostrading/sonic/sonicopts"
 	"golang.org/x/sys/unix"
@@ -80,6 +82,7 @@ type object struct {
 	file   sonic.FileDescriptor // sock (Conn), pipeR, pipeW, reg
 	lst    sonic.Listener
 	pkt    sonic.PacketConn
+	mcp    *multicast.UDPPeer
 	fd     int // RawFd of the sonic object
 	peer   int // raw peer descriptor (-1 if none / closed)
 	port   int // bound port (lst, pkt)
@@ -271,6 +274,18 @@ func (d *drv) mk(kind string, idx int) (*object, error) {
 			return nil, err
 		}
 		o.peer = s
+	case "mcp":
+		p, err := multicast.NewUDPPeer(d.ioc, "udp", "127.0.0.1:0")
+		if err != nil {
+			return nil, err
+		}
+		o.mcp, o.fd = p, p.NextLayer().RawFd()
+		o.port = p.LocalAddr().Port
+		s, err := syscall.Socket(syscall.AF_INET, syscall.SOCK_DGRAM|syscall.SOCK_NONBLOCK, 0)
+		if err != nil {
+			return nil, err
+		}
+		o.peer = s
 	default:
 		return nil, fmt.Errorf("unknown kind %q", kind)
 	}
@@ -360,17 +375,25 @@ func (d *drv) exec(c Ev) {
 				cb(err, n)
 			})
 		case "readfrom":
-			ob.pkt.AsyncReadFrom(d.buf(8), func(err error, n int, _ net.Addr) { cb(err, n) })
+			if ob.mcp != nil {
+				ob.mcp.AsyncRead(d.buf(8), func(err error, n int, _ netip.AddrPort) { cb(err, n) })
+			} else {
+				ob.pkt.AsyncReadFrom(d.buf(8), func(err error, n int, _ net.Addr) { cb(err, n) })
+			}
 		case "writeto":
 			b := d.buf(1)
 			b[0] = 7
-			ob.pkt.AsyncWriteTo(b, &net.UDPAddr{IP: net.IPv4(127, 0, 0, 1), Port: d.sinkPort()}, func(err error) {
-				n := 0
-				if err == nil {
-					n = 1
-				}
-				cb(err, n)
-			})
+			if ob.mcp != nil {
+				ob.mcp.AsyncWrite(b, netip.AddrPortFrom(netip.AddrFrom4([4]byte{127, 0, 0, 1}), uint16(d.sinkPort())), cb)
+			} else {
+				ob.pkt.AsyncWriteTo(b, &net.UDPAddr{IP: net.IPv4(127, 0, 0, 1), Port: d.sinkPort()}, func(err error) {
+					n := 0
+					if err == nil {
+						n = 1
+					}
+					cb(err, n)
+				})
+			}
 		default:
 			panic("unknown api " + c.Api)
 		}
@@ -391,6 +414,8 @@ func (d *drv) exec(c Ev) {
 			err = ob.lst.Close()
 		case ob.pkt != nil:
 			err = ob.pkt.Close()
+		case ob.mcp != nil:
+			err = ob.mcp.Close()
 		}
 		ob.closed = true
 		cls, note := errClass(err)
@@ -515,7 +540,7 @@ func (d *drv) env(what string, oi int, n int) {
 			} else {
 				c.Close()
 			}
-		case "pkt":
+		case "pkt", "mcp":
 			if err := syscall.Sendto(ob.peer, []byte{9}, 0, &syscall.SockaddrInet4{Port: ob.port, Addr: [4]byte{127, 0, 0, 1}}); err != nil {
 				note = "sendto: " + err.Error()
 			}
@@ -686,6 +711,8 @@ func (d *drv) cleanup() {
 				_ = ob.lst.Close()
 			case ob.pkt != nil:
 				_ = ob.pkt.Close()
+			case ob.mcp != nil:
+				_ = ob.mcp.Close()
 			}
 		}
 		if ob.peer >= 0 {
